@@ -6,7 +6,7 @@ from xdsl.dialects import builtin
 from xdsl.dialects.arith import AddiOp, ConstantOp, DivUIOp, MuliOp
 from xdsl.dialects.builtin import DYNAMIC_INDEX, FixedBitwidthType, IndexType
 from xdsl.dialects.memref import ExtractAlignedPointerAsIndexOp, SubviewOp
-from xdsl.ir import Attribute, Operation, OpResult
+from xdsl.ir import Attribute, Operation, OpResult, SSAValue
 from xdsl.parser import MemRefType
 from xdsl.passes import ModulePass
 from xdsl.pattern_rewriter import (
@@ -32,17 +32,27 @@ class LowerExtractAlignedPointerOp(RewritePattern):
         assert isa(source_type := subview.source.type, MemRefType[Attribute])
         if not isinstance(source_type.layout, TiledStridedLayoutAttr):
             return
-        dynamic_index_list = [
-            i for i, offset in enumerate(subview.static_offsets.get_values()) if offset == DYNAMIC_INDEX
-        ]
         ops_to_add: list[Operation] = []
+        # gather the offsets (as SSA values) of all dimensions that have one, static or dynamic
+        dynamic_offsets = iter(subview.offsets)
+        offsets: list[SSAValue] = []
+        offset_index_list: list[int] = []
+        for i, static_offset in enumerate(subview.static_offsets.get_values()):
+            if static_offset == DYNAMIC_INDEX:
+                offsets.append(next(dynamic_offsets))
+                offset_index_list.append(i)
+            elif static_offset != 0:
+                static_offset_op = ConstantOp.from_int_and_width(static_offset, IndexType())
+                ops_to_add.append(static_offset_op)
+                offsets.append(static_offset_op.result)
+                offset_index_list.append(i)
         aligned_pointer = ExtractAlignedPointerAsIndexOp.get(subview.source)
         ops_to_add.append(aligned_pointer)
         element_type = source_type.get_element_type()
         assert isinstance(element_type, FixedBitwidthType)
         bytes_op = ConstantOp.from_int_and_width(element_type.size, IndexType())
         ops_to_add.append(bytes_op)
-        for offset, index in zip(subview.offsets, dynamic_index_list):
+        for offset, index in zip(offsets, offset_index_list):
             stride = source_type.layout.data.tstrides[index].strides[0].step
             assert stride is not None
             stride_op = ConstantOp.from_int_and_width(stride, IndexType())
